@@ -373,6 +373,13 @@ func rewriteChannels(p *packages.Package, f *ast.File) bool {
 		return ok
 	}
 	selID := 0
+	// the replaced callees, referenced once more at the end of the file so that their imports stay used
+	var keep []ast.Expr
+	defer func() {
+		for _, k := range keep {
+			f.Decls = append(f.Decls, &ast.GenDecl{Tok: token.VAR, Specs: []ast.Spec{&ast.ValueSpec{Names: []*ast.Ident{ast.NewIdent("_")}, Values: []ast.Expr{k}}}})
+		}
+	}()
 	astutil.Apply(f, func(c *astutil.Cursor) bool {
 		switch n := c.Node().(type) {
 		case *ast.CommClause:
@@ -425,7 +432,12 @@ func rewriteChannels(p *packages.Package, f *ast.File) bool {
 				if fobj, ok := obj.(*types.Func); ok && fobj.Pkg() != nil {
 					switch {
 					case fobj.Pkg().Path() == "time" && fobj.Name() == "Sleep" && fobj.Type().(*types.Signature).Recv() == nil:
+						keep = append(keep, n.Fun)
 						n.Fun = &ast.SelectorExpr{X: ast.NewIdent("vrt__"), Sel: ast.NewIdent("Sleep")}
+						changed = true
+					case fobj.Pkg().Path() == "runtime" && fobj.Name() == "Gosched":
+						keep = append(keep, n.Fun)
+						n.Fun = &ast.SelectorExpr{X: ast.NewIdent("vrt__"), Sel: ast.NewIdent("Gosched")}
 						changed = true
 					case fobj.Pkg().Path() == "sync/atomic":
 						n.Fun = vrtCall("AP", n.Fun)
